@@ -508,7 +508,17 @@ func c10Commitments(c *ctx) {
 			if st == nil {
 				continue
 			}
-			for _, cs := range core.CallsTo(st, "~/crypto/commitments.NewHashCommitment") {
+			// the round step and the private helpers it calls synchronously
+			var unit []*ssa.Function
+			for g := range syncUnit(st) {
+				unit = append(unit, g)
+			}
+			sort.Slice(unit, func(i, j int) bool { return unit[i].Pos() < unit[j].Pos() })
+			var cmtCalls []ssa.CallInstruction
+			for _, g := range unit {
+				cmtCalls = append(cmtCalls, core.CallsTo(g, "~/crypto/commitments.NewHashCommitment")...)
+			}
+			for _, cs := range cmtCalls {
 				call := cs.(*ssa.Call)
 				k, okLen := core.LenOf(call.Call.Args[1])
 				if !okLen {
@@ -517,7 +527,11 @@ func c10Commitments(c *ctx) {
 				n++
 				// where does cmt.D go? a temp field; find the constructor field it is later sent in and its ValidateBasic count
 				dField := ""
-				for _, b := range st.Blocks {
+				var unitBlocks []*ssa.BasicBlock
+				for _, g := range unit {
+					unitBlocks = append(unitBlocks, g.Blocks...)
+				}
+				for _, b := range unitBlocks {
 					for _, in := range b.Instrs {
 						if s, ok := in.(*ssa.Store); ok {
 							if fr := core.AsFieldLoad(s.Val); fr != nil && fr.Name == "D" {
